@@ -69,7 +69,7 @@ def bounds(tier):
             "maps": {"indel_len": 5, "fmap_parent": 4, "fmap_spans": 2},
             "trees": {"max_tips": 4, "depth": 2},
             "lf": {"depth": 1, "alphabet": "reduced", "models": ["HKY85", "GN", "MG94HKY", "JTT92", "BH"]},
-            "static": {"distance_names": 3, "table_rows": 2, "table_cols": 2, "models": "all", "genetic_codes": "all"},
+            "static": {"distance_names": 3, "table_rows": 2, "table_cols": 2, "models": ["MG94HKY", "Y98", "H04G"], "genetic_codes": "all"},
         },
         "thorough": {
             "views": {"max_parent_len": 5, "depth": 2, "deep_parent_len": 3, "deep_depth": 3, "steps": [1, 2, 3, -1, -2, -3], "offsets": [0, 3]},
@@ -225,29 +225,41 @@ def channels(obj):
     return out
 
 
-def check_roundtrips(acc, what, cls, obj, observe, case, nontrivial=True, idempotent=True, post=None):
+def check_roundtrips(acc, what, cls, obj, observe, case, nontrivial=True, idempotent=True, kinds_out=None):
     """the checked transition: serialise -> deserialise through every channel, compare observations.
 
-    observe(obj, channel) -> Obs.  One defect in the dict family (json / rich dict / from_rich_dict share their code) is
-    reported once per state, under the first channel that shows it."""
+    observe(obj, channel) -> Obs (evaluated once for the original unless observe.per_channel).  cls is the structural class of the
+    state for signatures: a string, or a callable(kind) with kind = (channel family, what went wrong).  One defect in the dict family
+    (json / rich dict / from_rich_dict share their code) or in the copy family (pickle / deepcopy share __reduce_ex__) is reported once
+    per state, under the first channel that shows it."""
     failed = set()  # channel families already reported for this state
+    want_once = None
+
+    def klass(kind):
+        if kinds_out is not None:
+            kinds_out.add(kind)
+        return cls(kind) if callable(cls) else cls
+
     for ch, fn in channels(obj):
         acc.case({"what": what, "channel": ch, **case}, nontrivial=nontrivial)
         acc.transitions += 1
         fam = family_of(ch)
         with warnings.catch_warnings():
             warnings.simplefilter("ignore")
-            want = observe(obj, ch)
+            if getattr(observe, "per_channel", False):
+                want = observe(obj, ch)
+            else:
+                if want_once is None:
+                    want_once = observe(obj, ch)
+                want = want_once
             try:
                 r = fn(obj)
-                if post is not None:
-                    post(r)
             except Exception as e:  # noqa: BLE001
                 acc.outcome((what, ch, "raised", type(e).__name__))
                 if fam in failed:
                     continue
                 failed.add(fam)
-                acc.fail(f"{what}: {ch} round trip raised {type(e).__name__} [{cls}]", dict(case, channel=ch),
+                acc.fail(f"{what}: {ch} round trip raised {type(e).__name__} [{klass((fam, 'raised ' + type(e).__name__))}]", dict(case, channel=ch),
                          {"error": f"{type(e).__name__}: {e}"[:300], "original": [list(w[:2]) for w in want][:4]})
                 continue
             got = observe(r, ch)
@@ -257,7 +269,7 @@ def check_roundtrips(acc, what, cls, obj, observe, case, nontrivial=True, idempo
                 if fam in failed:
                     continue
                 failed.add(fam)
-                acc.fail(f"{what}: {ch} round trip: {diff[0]} differs [{cls}]", dict(case, channel=ch),
+                acc.fail(f"{what}: {ch} round trip: {diff[0]} differs [{klass((fam, 'differs ' + diff[0]))}]", dict(case, channel=ch),
                          {"observable": diff[0], "got": diff[1], "want": diff[2]})
                 continue
             acc.outcome((what, ch, "equal", strip_version([w[:2] for w in want])))
@@ -267,10 +279,11 @@ def check_roundtrips(acc, what, cls, obj, observe, case, nontrivial=True, idempo
                     r2 = fn(r)
                     d2 = strip_version(r2.to_rich_dict())
                 except Exception as e:  # noqa: BLE001
-                    acc.fail(f"{what}: second json round trip raised {type(e).__name__} [{cls}]", dict(case, channel=ch), {"error": str(e)[:300]})
+                    acc.fail(f"{what}: second json round trip raised {type(e).__name__} [{klass(('idem', 'raised ' + type(e).__name__))}]", dict(case, channel=ch), {"error": str(e)[:300]})
                     continue
                 if d1 != d2:
                     entry = first_changed_entry(json.loads(d1), json.loads(d2))
+                    klass(("idem", entry))
                     acc.fail(f"{what}: json round trip is not idempotent: entry '{entry}' of rt(rt(x)).to_rich_dict() differs from that of rt(x)", dict(case, channel=ch),
                              {"rt(x)": d1[:600], "rt(rt(x))": d2[:600]})
 
@@ -777,6 +790,7 @@ def observe_annotated(impl, with_features_in_dicts):
             o.add("number of db records", lambda: len(x.annotation_db) if x.annotation_db is not None else 0)
         return o
 
+    f.per_channel = True
     return f
 
 
@@ -1186,6 +1200,9 @@ def observe_tree(t, ch):
     return o
 
 
+observe_tree.per_channel = True
+
+
 def tree_ops(model):
     ops = []
     tips = tg.tips(model)
@@ -1489,24 +1506,47 @@ def lf_static_build(name, state):
     return lf
 
 
-def lf_static_run(spec, acc):
-    name = spec["model"]
-    states = list(LF_STATES) + (["gamma bins", "two loci"] if name == "HKY85" else [])
-    for state in states:
-        acc.traces += 1
-        case = {"part": "lf", "kind": "model", "model": name, "state": state}
+_DEFAULT_KINDS = {}
+
+
+def default_state_kinds(name):
+    """what goes wrong (if anything) with the round trips of the model's likelihood function as constructed"""
+    if name not in _DEFAULT_KINDS:
+        from vf.kernel.runner import Acc
+
+        kinds = set()
         try:
-            lf = lf_static_build(name, state)
-        except Exception as e:  # noqa: BLE001 - building the state is not this property's subject
-            acc.count("lf_states_not_constructible")
-            acc.notes.setdefault("lf_states_not_constructible", []).append(f"{name}/{state}: {type(e).__name__}")
-            continue
-        if lf is None:
-            continue
-        acc.state(0 if state == "default" else 1)
-        family = model_family(name)
-        check_roundtrips(acc, "likelihood function", f"{family} model, {state}", lf, observe_lf, case, nontrivial=state != "default")
-    acc.sample({"part": "lf", "model": name, "states": states}, "lf-model")
+            check_roundtrips(Acc(), "likelihood function", "", lf_static_build(name, "default"), observe_lf, {}, kinds_out=kinds)
+        except Exception:  # noqa: BLE001
+            pass
+        _DEFAULT_KINDS[name] = kinds
+    return _DEFAULT_KINDS[name]
+
+
+def lf_state_class(name, state):
+    """minimal structural class: a failure the freshly constructed function of the model shows too is a property of the model
+    family, otherwise of the state"""
+    family = model_family(name)
+    if state == "default":
+        return f"{family} model"
+    return lambda kind: f"{family} model" if kind in default_state_kinds(name) else state
+
+
+def lf_static_run(spec, acc):
+    name, state = spec["model"], spec["state"]
+    acc.traces += 1
+    case = {"part": "lf", "kind": "model", "model": name, "state": state}
+    try:
+        lf = lf_static_build(name, state)
+    except Exception as e:  # noqa: BLE001 - building the state is not this property's subject
+        acc.count("lf_states_not_constructible")
+        acc.notes.setdefault("lf_states_not_constructible", []).append(f"{name}/{state}: {type(e).__name__}")
+        return
+    if lf is None:
+        return
+    acc.state(0 if state == "default" else 1)
+    check_roundtrips(acc, "likelihood function", lf_state_class(name, state), lf, observe_lf, case, nontrivial=state != "default")
+    acc.sample({"part": "lf", "model": name, "state": state}, "lf-model")
 
 
 def model_family(name):
@@ -1533,7 +1573,8 @@ def lf_shards(b):
         out.append({"part": "lf", "kind": "history", "alphabet": b["alphabet"], "depth": b["depth"], "chunk": c, "of": nchunks})
     names = all_model_names() if b["models"] == "all" else b["models"]
     for name in names:
-        out.append({"part": "lf", "kind": "model", "model": name})
+        for state in list(LF_STATES) + (["gamma bins", "two loci"] if name == "HKY85" else []):
+            out.append({"part": "lf", "kind": "model", "model": name, "state": state})
     return out
 
 
@@ -1552,7 +1593,7 @@ def lf_replay(case, acc):
     else:
         lf = lf_static_build(case["model"], case["state"])
         if lf is not None:
-            check_roundtrips(acc, "likelihood function", f"{model_family(case['model'])} model, {case['state']}", lf, observe_lf, {k: case[k] for k in ("part", "kind", "model", "state")})
+            check_roundtrips(acc, "likelihood function", lf_state_class(case["model"], case["state"]), lf, observe_lf, {k: case[k] for k in ("part", "kind", "model", "state")})
 
 
 # ============================================================================= part: static registry list
@@ -1848,7 +1889,10 @@ def static_items(family, b):
         yield ("formatted", "Table", "with column formats and digits", lambda: make_table(header=["a", "b"], data=[[1.23456, 2], [3.0, 4]], digits=2, space=2, column_templates={"a": "%.1f"}), observe_table, True)
         yield ("transposed", "Table", "after transposed", lambda: make_table(header=["k", "x", "y"], data=[["r1", 1, 2], ["r2", 3, 4]]).transposed("new", select_as_header="k"), observe_table, True)
     elif family == "models":
-        names = all_model_names() if b["models"] == "all" else b["models"]
+        names = all_model_names()
+        if b["models"] != "all":
+            # codon models take seconds to construct (and every dict round trip constructs one): the quick tier keeps three of them
+            names = [n for n in names if "codon" not in model_family(n) or n in b["models"]]
         for name in names:
             yield (name, "substitution model", f"{model_family(name)} model", lambda name=name: get_model(name), observe_model(name), True)
         yield ("HKY85:gamma", "substitution model", "nucleotide model with rate heterogeneity", lambda: get_model("HKY85", ordered_param="rate", distribution="gamma"), observe_model("HKY85"), True)
@@ -1938,7 +1982,7 @@ def static_run(spec, acc):
 
 def static_shards(b):
     out = []
-    chunks = {"tables": 8, "models": 14, "results": 8, "distance_matrices": 2, "not_completed": 2, "genetic_codes": 2, "alphabets": 2}
+    chunks = {"tables": 8, "models": len(list(static_items("models", b))), "results": 8, "distance_matrices": 2, "not_completed": 2, "genetic_codes": 2, "alphabets": 2}
     for fam in STATIC_FAMILIES:
         n = chunks.get(fam, 1)
         for c in range(n):
